@@ -170,7 +170,7 @@ func c15LibLib(res *lp.Result, s c15Scn) {
 	}
 	for i := 0; i < n; i++ {
 		g := &gen.G{R: rng, V: s.version, Big: rng.Intn(10) == 0}
-		sid := int16(100 + i)
+		sid := int16(1 + i%100) // (protocol v2 has one-byte stream ids; every request is answered before the next one is sent)
 		req := genFrame(g, c15RequestKinds, sid)
 		if s.comp != primitive.CompressionNone && rng.Bool() {
 			req.SetCompress(true)
